@@ -654,7 +654,7 @@ def nontrivial(h):
 
 # ------------------------------------------------------------------ harness entry points
 def plan(tier, seed):
-    n, per = (150, 6) if tier == "quick" else (6000, 50)
+    n, per = (640, 20) if tier == "quick" else (6000, 50)
     return [{"lo": lo, "hi": min(n, lo + per)} for lo in range(0, n, per)]
 
 
